@@ -12,7 +12,7 @@ from fractions import Fraction
 import common as C
 
 ID = "C13"
-COQ_TARGETS = ["Properties/C13.vo"]
+COQ_TARGETS = ["Properties/C13.vo", "GenFacts/UnitsLookupSrcFacts.vo"]
 MODEL_TARGETS = ["Model/Units.vo", "Proofs/UnitSpec.vo"]
 IMPORTS = "From Ka Require Import Model.Units.\nOpen Scope string_scope.\n"
 IMPORTS_SPEC = "From Ka Require Import Model.Units Proofs.UnitSpec.\nOpen Scope string_scope.\n"
